@@ -215,6 +215,15 @@ func init() {
 		RaceShards: func(tier string) int { return 2 },
 		RunRace:    runC07Race,
 		Run:        runC07,
+		// a parallel parse that does not come back while the serial one does refutes the property: the watchdog ends the
+		// child, the case is replayed alone, and only a second failure to terminate counts
+		HangIsViolation: true,
+		Watchdog: func(tier string) time.Duration {
+			if tier == "thorough" {
+				return 45 * time.Minute
+			}
+			return 4 * time.Minute
+		},
 	})
 }
 
@@ -335,7 +344,11 @@ func runC07(e *core.Env) {
 				continue
 			}
 			cnt := int64(0)
-			for _, n := range []int{r.Range(2, 8), r.Range(9, 64), r.PickInt(2, 3, 4, 16)} {
+			ns := []int{r.Range(2, 8), r.Range(9, 64), r.PickInt(2, 3, 4, 16)}
+			if kind == "big" {
+				ns = []int{2, r.PickInt(2, 3, 4), 16} // few workers: many times 64 KiB for each of them
+			}
+			for _, n := range ns {
 				got, pi := parseWith(parser.NewParallelParser(n), text)
 				cnt++
 				if pi != nil {
@@ -361,6 +374,16 @@ func runC07(e *core.Env) {
 
 func c07BulkText(r *core.Rand) (string, string) {
 	o := gen.Opts{MaxRecs: 40, MinRecs: 5, MaxEntries: 6, Unicode: true, Hostile: true, OpenRanges: 1, Tags: 1, TrailingBlank: true, LookAlikes: true}
+	if r.Chance(1, 25) {
+		// a big file: several times 64 KiB per worker (one of the sizes beyond which implementations start to cut work differently)
+		unit := gen.Document(r, o).Text
+		if !strings.HasSuffix(unit, "\n") {
+			unit += "\n"
+		}
+		unit += "\n"
+		want := 65536*r.PickInt(3, 5, 9, 19) + r.Intn(5000)
+		return strings.Repeat(unit, want/len(unit)+1), "big"
+	}
 	switch r.Intn(6) {
 	case 0: // many erroneous records
 		d := gen.Document(r, gen.Opts{MaxRecs: 2, MinRecs: 1, MaxEntries: 2, Short: true, Hostile: true})
